@@ -166,7 +166,7 @@ CHECKS = {
             'ordered pair of links on molecules of 3-4 residues with four numbering schemes and four connectivities; the complete interaction '
             'table, attributes and removed atoms must be equal. match_order is checked on all 15x15 order pairs x 16 residue-number pairs.',
             'Replace of an attribute the same link matches on, non-edges on non-zero-order anchors and removals of a link\'s own additions are '
-            'outside the grammar; features alone and in pairs, not triples.', '§4 C05'),
+            'outside the grammar; links alone and in ordered pairs (thorough: ordered triples on three molecules), not quadruples.', '§4 C05'),
     'C11': ('C', 'deviation-bounded exhaustive exploration of input presentations (every 1-deviation: atom transpositions, hydrogen renamings, exact rigid motions, hash seeds) through bin/martinize2\'s own entry(), differential oracle on canonical ITP/TOP/PDB records',
             'model_checking',
             'For each base input (tri-alanine and 4-residue peptides cut from the shipped test structures incl. HIS, TRP/CYS, MET and a '
@@ -267,6 +267,26 @@ ADDED2 = {
     'C19': ' Further: one AnnotateMutMod instance over two systems; martinize2 -mutate / -nter / -cter / -nt on 1-3 chains (props/c19_cli.py).',
 }
 
+# session 4: fifth wave of seeded changes, deeper thorough bounds
+ADDED3 = {
+    'C01': ' Session 4: the weights recorded by every overlaid particle of a modified residue, incl. modification mappings that state another '
+           'weight for their anchor atom than the block mapping.',
+    'C05': ' Session 4: thorough also applies every ordered TRIPLE of the grammar links (3 x 56^3 link lists on a linear, a star and a ring '
+           'molecule); molecule sequences contain molecules with the node keys of an earlier one at other coordinates.',
+    'C06': ' Session 4: balanced trees of 13 and 15 nodes and two joined 3-stars under 3 (thorough 8) node numberings.',
+    'C09': ' Session 4: the pipeline layer judges by the documented element masses (not the attribute the program attached) and has an atom of '
+           'an element without documented mass inside a particle.',
+    'C10': ' Session 4: thorough adds two five-atom layouts in three residues under all 120 input orders.',
+    'C11': ' Session 4: the fragment presented as a GRO file with -ignh (hydrogens named letter-first or number-first, orders; no motions, a '
+           'translation would re-round the 0.01 A coordinates) and -ignh on PDB input.',
+    'C13': ' Session 4: thorough enumerates every file of up to SIX top-level sections (.ff: 1.1 million files; .itp 3^6; .mapping 5^6) and '
+           'injects every fault at every line of every file of up to four sections. Not claimed: which value wins when a block atom line '
+           'states one key both in a column and in its {...} attributes (fixed neither by the statement nor by the documentation).',
+    'C16': ' Session 4: systems in which only some molecules carry velocities (every pattern over 1-3 molecules); two systems written deferred '
+           'to two paths (same name in two directories, two names in one directory, a name that is a prefix of the other, nested directory) '
+           'and flushed once or twice - each path holds its own system.',
+}
+
 NOTES = {
     'C01': 'Residues have 2-3 atoms; modification mappings are single-residue in C01 (two-residue ones are exercised in C09).',
 }
@@ -281,7 +301,7 @@ def main():
             not_applicable.append({'property_id': pid, 'reason': NOT_YET})
             continue
         engine, technique, category, text, note, ref = CHECKS[pid]
-        text += ADDED.get(pid, '') + ADDED2.get(pid, '')
+        text += ADDED.get(pid, '') + ADDED2.get(pid, '') + ADDED3.get(pid, '')
         note = NOTES.get(pid, note)
         checks.append({
             'property_id': pid,
